@@ -24,7 +24,22 @@ MAINT_RULE = ("maint engine: the seq engine restricted to one index action per o
 MAINT_ASSUME = ["single goroutine; the read buffer is one ring (no contention)", "maxima <= 12: hill-climber adjustment is 0 (floating point not modelled)",
                 "window / protected maxima are read from the implementation after SetMaximum (floating point)"]
 
+RING = dict(engine="ring", scale_quick=2, scale_thorough=40, timeout_quick=600, timeout_thorough=3000)
+MPSC = dict(engine="mpsc", scale_quick=2, scale_thorough=30, timeout_quick=600, timeout_thorough=3000)
+
 PROPS = {
+    "C16": dict(engines=[MPSC],
+                rule="mpsc engine: every (initial, maximum) capacity pair from {2..128} x {4..128}; sequential random pushes/pops crossing every growth step and back, with producers "
+                     "parked between the producer-index CAS and the slot store (hook) and pops issued meanwhile; indices/masks/buffer lengths compared with the extracted model after "
+                     "every call; plus free-running runs of 1-8 producers against the consumer checked for exactly-once, per-producer order and the size bound; "
+                     "distinct_nontrivial = distinct (accepted?, fill bucket, capacity) and stress configurations",
+                assumptions=["sequential consistency of sync/atomic", "the parked-producer schedules have one producer in flight at a time; arbitrary interleavings are exercised free-running only"]),
+    "C17": dict(engines=[RING],
+                rule="ring engine: 1-4 producers on one ring, macro schedules of whole adds, adds parked between the tail CAS and the slot store (hook), resumptions and whole drains; "
+                     "status, drained values, head, tail and slot occupancy compared with the extracted small-step model after every macro step; plus the striped buffer under 2-8 free-running "
+                     "recorders and a concurrent drainer checked for delivered-subset-of-recorded, no duplicates, capacity, complete quiescent drain and monotone stripe table; "
+                     "distinct_nontrivial = distinct (status/drain size, number of parked producers) and stripe-table outcomes",
+                assumptions=["sequential consistency of sync/atomic", "CAS failures (status Failed) occur only in the free-running part", "counters do not wrap (2^64 adds)"]),
     "C04": dict(engines=[MAINT, SEQ], rule=MAINT_RULE, assumptions=MAINT_ASSUME),
     "C05": dict(engines=[MAINT], rule=MAINT_RULE, assumptions=MAINT_ASSUME),
     "C06": dict(engines=[SEQ, MAINT], rule=SEQ_RULE + "; OnDeletion vs OnAtomicDeletion multisets compared at quiescence of every case", assumptions=SEQ_ASSUME),
